@@ -27,6 +27,9 @@ type Opts struct {
 	// RecoverLA: the action of a production "@error TOKEN" hands that token back to the parser with
 	// recoverLookahead when the token's input index is even (the documented use of that method).
 	RecoverLA bool
+	// PtrDiscard: Token (a value type, the element type of TOKEN*! lists) declares Discard with a
+	// pointer receiver; x*! must find it all the same (elements are addressable).
+	PtrDiscard bool
 }
 
 // NilRules lists the rules that return nil under mask: rules with the bit set that are never the
@@ -108,7 +111,7 @@ func itoa(n int) string {
 }
 
 // Discard is a deterministic function of the token kind (odd ids are dropped by *!).
-func (t Token) Discard() bool { return t.ID%2 == 1 }
+func (t TOKRECV) Discard() bool { return t.ID%2 == 1 }
 
 type nodeT struct {
 	Rule string
@@ -331,7 +334,11 @@ func Run(toks []int, limit int) (r Result) {
 // parameter types share one method (lox requires exactly one match).
 func UserGo(g *G, o Opts) string {
 	var b strings.Builder
-	b.WriteString(prelude)
+	if o.PtrDiscard {
+		b.WriteString(strings.Replace(prelude, "TOKRECV", "*Token", 1))
+	} else {
+		b.WriteString(strings.Replace(prelude, "TOKRECV", "Token", 1))
+	}
 	const onBoundsSrc = `
 func (p *prs) _onBounds(r any, begin, end Token) {
 	p.step()
